@@ -50,6 +50,61 @@ type Loader struct {
 	// directory the later ones resolve against.
 	SeqPre   []string
 	SeqShape string
+	// StrShape is set for string-sourced contexts (Layout.Strs): the load is
+	// issued by code that is NOT read from a file - a string, []byte or reader
+	// handed to load-string / load-bytes or to a host Load* entry point under
+	// a free-form stream name (label).  StrTop: the host enters the
+	// string-sourced code directly (Spelled is empty); otherwise Spelled is a
+	// string file (`(verif:probe 'TAG)` followed by the StrShapes form), a real
+	// file that evaluates the string-sourced code while it executes.  The
+	// string-sourced code loads the location under test itself (StrInner
+	// false) or the loader file InnerSpelled (StrInner true; the request is
+	// spelled the way a top-level request is), which then loads the location
+	// under test.  String-sourced code has no loading file: its loads resolve
+	// like top-level loads, whatever the label and wherever the file that
+	// evaluated the string lives (SourceContext.Location documentation).
+	StrShape string
+	StrTop   bool
+	StrInner bool
+}
+
+// StrShape is one way string-sourced code is entered: Form is the lisp form
+// that does it.  (verif:c20-str-src) yields the source text,
+// (verif:c20-str-label) the stream name; verif:c20-str-host is a host Go
+// builtin calling LoadString | LoadStringContext | Load | LoadContext of the
+// environment it was handed with that name and source.
+type StrShape struct {
+	Name  string
+	Form  string
+	Named bool   // the stream name is passed
+	Host  bool   // entered through a host Load* entry point
+	By    string // what evaluates the source: load-string | load-bytes | the host entry point
+}
+
+// StrShapes lists the ways string-sourced code is entered.
+var StrShapes = []StrShape{
+	{Name: "load-string", Form: "(load-string (verif:c20-str-src) :name (verif:c20-str-label))", Named: true, By: "load-string"},
+	{Name: "load-string-noname", Form: "(load-string (verif:c20-str-src))", By: "load-string"},
+	{Name: "load-bytes", Form: "(load-bytes (to-bytes (verif:c20-str-src)) :name (verif:c20-str-label))", Named: true, By: "load-bytes"},
+	{Name: "load-bytes-noname", Form: "(load-bytes (to-bytes (verif:c20-str-src)))", By: "load-bytes"},
+	{Name: "load-string-in-let", Form: "(let ([s (verif:c20-str-src)] [n (verif:c20-str-label)]) (load-string s :name n))", Named: true, By: "load-string"},
+	{Name: "load-string-in-lambda", Form: "(funcall (lambda (s n) (load-string s :name n)) (verif:c20-str-src) (verif:c20-str-label))", Named: true, By: "load-string"},
+	{Name: "load-bytes-mapped", Form: "(map 'list (lambda (s) (load-bytes (to-bytes s) :name (verif:c20-str-label))) (list (verif:c20-str-src)))", Named: true, By: "load-bytes"},
+	{Name: "load-string-in-load-string", Form: "(load-string \"(load-string (verif:c20-str-src) :name (verif:c20-str-label))\" :name \"c20outer/dir/stream\")", Named: true, By: "load-string"},
+	{Name: "host-LoadString", Form: "(verif:c20-str-host)", Named: true, Host: true, By: "LoadString"},
+	{Name: "host-LoadStringContext", Form: "(verif:c20-str-host)", Named: true, Host: true, By: "LoadStringContext"},
+	{Name: "host-Load", Form: "(verif:c20-str-host)", Named: true, Host: true, By: "Load"},
+	{Name: "host-LoadContext", Form: "(verif:c20-str-host)", Named: true, Host: true, By: "LoadContext"},
+}
+
+// StrShapeOf returns the shape called name.
+func StrShapeOf(name string) StrShape {
+	for _, sh := range StrShapes {
+		if sh.Name == name {
+			return sh
+		}
+	}
+	panic("no such string shape: " + name)
 }
 
 // SeqShape is one way a file loads a sequence of locations: Form is the
@@ -101,13 +156,21 @@ type Layout struct {
 	// Seqs are the contexts in which the loading file loads several locations
 	// in a row through callbacks of a builtin, the location under test (or the
 	// request reaching the loader file) last (interpreter entry points only).
-	Seqs   []Loader
+	Seqs []Loader
+	// Strs are the contexts in which the load is issued by string-sourced code
+	// (interpreter entry points only), see Loader.StrShape.
+	Strs   []Loader
 	Secret string   // token contained in a non-lisp outside file
 	Starts []string // sandbox-relative directories location enumeration starts from
 	// Plain layouts carry `"MARKER"` as file content (no probe builtins): for
 	// runs of the real elps command line, which has no host builtins.
 	Plain bool
 	nmark int
+	// the label pool of the string-sourced contexts (built on first use)
+	strClasses []string
+	strPool    map[string][]string
+	strComps   []string
+	strTails   []string
 }
 
 // Sentinel is the location the loaders get on re-entry; it exists nowhere.
@@ -239,12 +302,250 @@ func (l *Layout) buildSeqs(ldirs []string, loaders []Loader, inFiles []string) {
 	}
 }
 
+// StrPrefix starts the file names of the string files (not listed by the
+// location enumeration either).
+const StrPrefix = "c20str-"
+
+// buildStrs fills l.Strs.  ldirs are the loader directories, loaders[i] the
+// plain loader file of ldirs[i]; all are the loader contexts of the layout
+// (the link-reached and two-level ones included).  No PRNG: the contexts are a
+// function of the layout.  Placements: the host enters the string-sourced code
+// directly ("top"), or a string file in a loader directory does while it
+// executes.  Every shape meets every placement with the location under test
+// loaded by the string-sourced code itself; and for every (placement, loader
+// context) pair one shape loads the loader file from the string-sourced code,
+// the loader file then loading the location under test.
+func (l *Layout) buildStrs(ldirs []string, loaders []Loader, all []Loader) {
+	type place struct {
+		lab, dir string
+		top      bool
+	}
+	places := []place{{lab: "top", top: true}}
+	for i, d := range ldirs {
+		places = append(places, place{lab: strings.TrimPrefix(loaders[i].Label, "ldr-"), dir: d})
+	}
+	mk := func(p place, sh StrShape) Loader {
+		if p.top {
+			return Loader{StrShape: sh.Name, StrTop: true}
+		}
+		rel := join(p.dir, StrPrefix+sh.Name+".lisp")
+		n := l.Tree.Lookup(rel)
+		if n == nil {
+			m := l.marker("str_" + rel)
+			n = l.Tree.AddFile(rel, m, fmt.Sprintf("(verif:probe '%s) %s\n", m, sh.Form))
+		}
+		return Loader{Spelled: rel, Chain: []string{n.Marker}, CtxDirs: []string{p.dir}, StrShape: sh.Name}
+	}
+	for pi, p := range places {
+		for _, sh := range StrShapes {
+			ld := mk(p, sh)
+			ld.Label = fmt.Sprintf("str-%s:%s", p.lab, sh.Name)
+			l.Strs = append(l.Strs, ld)
+		}
+		for j, y := range all {
+			sh := StrShapes[(pi*len(all)+j)%len(StrShapes)]
+			ld := mk(p, sh)
+			ld.Label = fmt.Sprintf("strhop-%s>%s:%s", p.lab, strings.TrimPrefix(y.Label, "ldr-"), sh.Name)
+			ld.Chain = append(ld.Chain, y.Chain...)
+			ld.CtxDirs = y.CtxDirs
+			ld.InnerSpelled = y.Spelled
+			ld.StrInner = true
+			l.Strs = append(l.Strs, ld)
+		}
+	}
+}
+
+// Label classes of the string-sourced contexts that say nothing about a
+// directory: a control run with such a label is what the other classes are
+// compared with.
+const (
+	StrClassEmpty = "empty-name"
+	StrClassWord  = "plain-word"
+)
+
+// StrControlLabel is the stream name of the control runs.
+const StrControlLabel = "c20label"
+
+func (l *Layout) strAdd(class string, texts ...string) {
+	if l.strPool == nil {
+		l.strPool = map[string][]string{}
+	}
+	for _, t := range texts {
+		if _, ok := l.strPool[class]; !ok {
+			l.strClasses = append(l.strClasses, class)
+		}
+		dup := false
+		for _, x := range l.strPool[class] {
+			if x == t {
+				dup = true
+			}
+		}
+		if !dup {
+			l.strPool[class] = append(l.strPool[class], t)
+		}
+	}
+}
+
+// buildStrLabels builds the pool of stream names from the layout: a stream
+// name is free-form text, so the pool holds what a host or a program may
+// plausibly (or carelessly) pass - nothing, a word, and paths of every kind:
+// directories that exist inside and outside the root, spelled the way the FS
+// libraries address files (relative to the root), relative to the working
+// directory and absolutely, with a non-existent and with an existing file
+// name behind them, paths of real files, ".."-laden and unclean spellings,
+// directories reached through links, trailing slashes, directories that do not
+// exist, URLs.
+func (l *Layout) buildStrLabels() {
+	t := l.Tree
+	inFS := func(p string) string {
+		if p == l.RootRel {
+			return "."
+		}
+		if strings.HasPrefix(p, l.RootRel+"/") {
+			return strings.TrimPrefix(p, l.RootRel+"/")
+		}
+		return RelPath(l.RootRel, p)
+	}
+	cwdRel := func(p string) string { return RelPath(l.CwdRel, p) }
+	abs := func(p string) string { return join(t.BasePath, p) }
+	type ent struct {
+		rel    string
+		inside bool
+	}
+	var dirs, files, linkDirs []ent
+	var walk func(n *fsmodel.Node, rel string)
+	walk = func(n *fsmodel.Node, rel string) {
+		inside := n.UnderOrSelf(l.Root)
+		if rel != "" {
+			dirs = append(dirs, ent{rel, inside})
+		}
+		for _, k := range n.SortedKids() {
+			c := n.Kids[k]
+			cr := join(rel, k)
+			switch c.Kind {
+			case fsmodel.Dir:
+				walk(c, cr)
+			case fsmodel.File:
+				if c.Marker != "" && k != HopName && !strings.HasPrefix(k, SeqPrefix) && !strings.HasPrefix(k, StrPrefix) {
+					files = append(files, ent{cr, inside})
+				}
+			case fsmodel.Link:
+				if res := t.ResolveLink(c); res.Err == fsmodel.OK && res.Node.Kind == fsmodel.Dir && inside {
+					linkDirs = append(linkDirs, ent{cr, true})
+				}
+			}
+		}
+	}
+	walk(t.Base, "")
+	l.strAdd(StrClassEmpty, "")
+	l.strAdd(StrClassWord, "bootstrap", "c20top", "load-string", "x.lisp", "expression 1", "<native code>")
+	slashed := func(class string, texts ...string) {
+		for _, x := range texts {
+			if strings.Contains(x, "/") {
+				l.strAdd(class, x)
+			}
+		}
+	}
+	comps := map[string]bool{}
+	tails := map[string]bool{"label": true, "x.lisp": true, "": true}
+	for _, d := range dirs {
+		for _, c := range split(d.rel) {
+			comps[c] = true
+		}
+		if d.inside {
+			// spellings of the directory: relative to the root (the way FS
+			// libraries address files; none for the root itself), relative to the
+			// working directory, absolute
+			var sp []string
+			if d.rel != l.RootRel {
+				sp = append(sp, inFS(d.rel))
+			}
+			if c := cwdRel(d.rel); c != "." {
+				sp = append(sp, c)
+			}
+			last := d.rel[strings.LastIndex(d.rel, "/")+1:]
+			for _, x := range sp {
+				l.strAdd("dir-inside-root", x+"/label", x+"/x.lisp")
+				l.strAdd("dotdot", x+"/../label", x+"/../"+last+"/label", x+"/nx/../label")
+				l.strAdd("trailing-slash", x+"/")
+				l.strAdd("nonexistent-dir", x+"/nx/label")
+				l.strAdd("odd-spelling", "./"+x+"/label", strings.ReplaceAll(x+"/label", "/", "//"), "http://host/"+x+"/x.lisp", x+"/./label")
+			}
+			l.strAdd("absolute-inside-root", abs(d.rel)+"/label")
+			l.strAdd("trailing-slash", abs(d.rel)+"/")
+			l.strAdd("odd-spelling", "file://"+abs(d.rel)+"/x.lisp")
+		} else {
+			slashed("dir-outside-root", join(cwdRel(d.rel), "label"), join(inFS(d.rel), "label"))
+			l.strAdd("absolute-outside-root", join(abs(d.rel), "label"))
+		}
+	}
+	for _, f := range files {
+		name := f.rel[strings.LastIndex(f.rel, "/")+1:]
+		tails[name] = true
+		l.strAdd(StrClassWord, name)
+		if f.inside {
+			slashed("real-file-inside-root", inFS(f.rel), cwdRel(f.rel))
+			l.strAdd("absolute-inside-root", abs(f.rel))
+		} else {
+			slashed("real-file-outside-root", cwdRel(f.rel), inFS(f.rel))
+			l.strAdd("absolute-outside-root", abs(f.rel))
+		}
+	}
+	for _, d := range linkDirs {
+		comps[d.rel[strings.LastIndex(d.rel, "/")+1:]] = true
+		slashed("dir-via-link", join(inFS(d.rel), "label"), join(cwdRel(d.rel), "label"), join(abs(d.rel), "label"))
+	}
+	l.strAdd("dotdot", "../label", "../../label", "..", "../", "../x.lisp")
+	l.strAdd("trailing-slash", "label/", "/")
+	l.strAdd("nonexistent-dir", "plugins/bootstrap", "nx/label", "nx/deep/label.lisp")
+	l.strAdd("absolute-outside-root", "/etc/hostname", "/label", "/nx/label", "/etc/label")
+	l.strAdd("odd-spelling", "./label", ".", "./", "//label", "sub\\label", " /label", "~/label")
+	for c := range comps {
+		l.strComps = append(l.strComps, c)
+	}
+	sort.Strings(l.strComps)
+	l.strComps = append(l.strComps, "..", "..", ".", "nx")
+	for c := range tails {
+		l.strTails = append(l.strTails, c)
+	}
+	sort.Strings(l.strTails)
+	l.strClasses = append(l.strClasses, "random-path")
+}
+
+// StrLabel draws a stream name for string-sourced code: a class first (so
+// that every class is exercised equally often, however many members it has),
+// then a member; the class "random-path" composes a path of 1-4 components
+// (names of the layout's directories and directory links, "..", ".", a name
+// that exists nowhere), relative or absolute (below the sandbox or below "/"),
+// ending in a word, a real file's name or a slash.
+func (l *Layout) StrLabel(r *fw.RNG) (class, text string) {
+	if l.strClasses == nil {
+		l.buildStrLabels()
+	}
+	class = fw.Pick(r, l.strClasses)
+	if class != "random-path" {
+		return class, fw.Pick(r, l.strPool[class])
+	}
+	var parts []string
+	for i, n := 0, r.Range(1, 4); i < n; i++ {
+		parts = append(parts, fw.Pick(r, l.strComps))
+	}
+	text = strings.Join(parts, "/") + "/" + fw.Pick(r, l.strTails)
+	switch r.Intn(6) {
+	case 0:
+		text = l.Tree.BasePath + "/" + text
+	case 1:
+		text = "/" + text
+	}
+	return class, text
+}
+
 // listed is the directory listing the location enumeration works from.
 func listed(n *fsmodel.Node) []string {
 	kids := n.SortedKids()
 	out := kids[:0:0]
 	for _, k := range kids {
-		if k != HopName && !strings.HasPrefix(k, SeqPrefix) {
+		if k != HopName && !strings.HasPrefix(k, SeqPrefix) && !strings.HasPrefix(k, StrPrefix) {
 			out = append(out, k)
 		}
 	}
@@ -470,6 +771,7 @@ func buildFixed(base string, variant int, plain bool) *Layout {
 		l.hop("hop-linked-sub>deep", in("ld_in/"+HopName), in("sub"), h2, "deep/ldr.lisp", ldDeep, []string{in("ld_in/deep"), in("sub/deep")})
 		l.buildSeqs([]string{R, in("sub"), in("sub/deep")}, l.Loaders[:3],
 			[]string{in("a.lisp"), in("sub/b.lisp"), in("sub/deep/c.lisp"), in("..x/d.lisp")})
+		l.buildStrs([]string{R, in("sub"), in("sub/deep")}, l.Loaders[:3], l.Loaders)
 	}
 	l.finish(Rlink, Rl2)
 	l.Starts = uniq([]string{R, in("sub/deep"), l.CwdRel, ""})
@@ -646,6 +948,7 @@ func buildRandom(base string, variant int, r *fw.RNG) *Layout {
 		l.hop("hop-0>"+strings.TrimPrefix(ld.Label, "ldr-"), "", R, hm[0], RelPath(R, ld.Spelled), ld, ld.CtxDirs)
 	}
 	l.buildSeqs(ldirs, l.Loaders[:len(ldirs)], inFiles)
+	l.buildStrs(ldirs, l.Loaders[:len(ldirs)], l.Loaders)
 	return l
 }
 
